@@ -79,4 +79,17 @@ CHECKS = {
              "non-trivial = at least one twin's estimate moved on the final sample; distinct = distinct (config, prefix length, rtt pair, in-flight, drop).",
         assumptions=COMMON_ASSUME + ["math/rand.Seed is effective for the library's jitter (harness go.mod 'go 1.23' keeps randseednop=0); twins are checked for equal state before the final sample"],
     ),
+    "C15": dict(
+        pkg="c15", race=False, shards=(4, 16), timeout_s=(300, 1800),
+        technique="online trace monitor over unique-RTT histories: suffix-minimum, reset-order, staleness and probe-spacing checks on RTTNoLoad()",
+        level_text="Every sample has a unique RTT (level steps up and down), so RTTNoLoad() after each sample names its source sample. The monitor "
+                   "checks: unset or <= current RTT; equals an observed RTT that is the minimum since its own sample; the implied reset point never "
+                   "moves backwards; age of the source < multiplier*(max estimate+1)+1 (Vegas) / < 2*interval (Gradient); resets neither overdue nor "
+                   "earlier than the documented jitter range allows. Jitter is reproducible through math/rand.Seed. Exploration.",
+        require=["samples", "baseline_resets_observed", "baseline_raises_observed", "baseline_lowerings_observed", "cases/vegas", "cases/gradient"],
+        rule="case = (Vegas with max<=40 and multiplier in {1..30} or Gradient with interval in {3,10,50,200,disabled}, math/rand seed, 1500-4000 "
+             "samples with unique RTTs whose level steps up/down); non-trivial = at least one reset and one lowering of the baseline observed; "
+             "distinct = distinct (config, seed, length, middle RTT).",
+        assumptions=COMMON_ASSUME + ["probe spacing lower bounds use the documented jitter ranges (Vegas jitter in [0.5,1), Gradient countdown in [interval, 2*interval))"],
+    ),
 }
